@@ -76,7 +76,9 @@ class VTimer:
         w.seq += 1
         self.seq = w.seq
         iv = self.interval
-        self.weird = isinstance(iv, float) and not math.isfinite(iv)
+        # non-finite or negative intervals are not produced by the fixed code; such timers are exempt from
+        # the exactness bookkeeping so that the case is compared (and mismatches) rather than skipped
+        self.weird = isinstance(iv, float) and (not math.isfinite(iv) or iv < 0)
         if isinstance(iv, float) and math.isnan(iv):
             # Event.wait(nan) returns at once: the real Timer fires immediately
             self.due = w.clock.key
@@ -394,7 +396,7 @@ INT_TOKS = ['0', '1', '5', '6', '7', '13', '14', '15', '-1', '-0', '+3', ' 4 ', 
             '1.0', '1e3', 'abc', '', '*', '**', ' *', '0x1F', '9' * 25, '-' + '9' * 25, '\xb2', '4\n']
 FLT_TOKS = ['0', '1.5', '2000', '2000.0', '2000.0000001', '2001', '1e3', '1e4', '-5', 'nan', 'inf', '-inf',
             '1e400', 'abc', '', '*', '1_000.5', ' 7 ', '.5', '5.', '0x1p3', '1e-400', 'Infinity', '-nan']
-NAMES_OTHER = ['foo', 'Status', 'STATUS', 'statuss', 'get', 'a', 'z9', 'a-', 'a--b', 'start-', 'stop1',
+NAMES_OTHER = ['foo', 'Status', 'STATUS', 'statuss', 'get', 'a', 'z9', 'a-', 'a--b', 'start-', 'stop1', 'get_tpi', 'a_b',
                'undefined', 'set-section-', 'reset', 'setup', 'target-sweep', 'vna-sweep', 'x' * 40]
 CONFS = ['valid', 'x', '9', 'K', 'KKC', 'Zband', 'zBand', '_a', '-a', ' a', '', 'a b', 'a\x00b', '\xe9t\xe9',
          '0', 'unconfigured', '*', 'A' * 30, 'k' * 30, '\x7f', '!x', '?x']
@@ -526,7 +528,7 @@ def malformed_line(rng, hist):
     elif k == 10:
         s = reply_line(rng).replace('!', rng.choice(['!!', '! ', '']), 1)
     elif k == 11:
-        s = '?' + ''.join(rng.choice('abcXYZ019-') for _ in range(rng.randrange(1, 12)))
+        s = '?' + ''.join(rng.choice('abcXYZ019-_') for _ in range(rng.randrange(1, 12)))
     elif k == 12:
         s = rng.choice(['?', '!', ',', '?,', '!,', '?a,', '!a,ok,', '?a,\r', '?a,b\n,c'])
     else:
@@ -582,6 +584,29 @@ def query_block():
                                             'get-filename', 'get-tpi', 'get-tp0'))
 
 
+def scenario(rng, hist):
+    """short scripted command sequences around re-scheduling (lines; the caller terminates them)"""
+    now = hist.env.clock.key
+    t1 = ts_token(rng, now + rng.choice([2, UNITS, 30 * UNITS]))
+    t2 = ts_token(rng, now + rng.choice([4, 2 * UNITS, 40 * UNITS]))
+    k = rng.randrange(8)
+    if k == 0:
+        return ['?start,' + t1, '?start', '?start,' + t2]
+    if k == 1:
+        return ['?start,' + t1, '?start', '?stop', '?start,' + t2]
+    if k == 2:
+        return ['?start', '?stop,' + t1, '?stop', '?start', '?stop,' + t2]
+    if k == 3:
+        return ['?start,' + t1, '?start,' + t2, '?start,' + t1]
+    if k == 4:
+        return ['?stop,' + t1, '?stop,' + t2]
+    if k == 5:
+        return ['?start,' + t1, '?stop,' + t2, '?reset']
+    if k == 6:
+        return ['?start,' + t2, '?stop,' + t1]
+    return ['?start', '?stop,' + t1, '?start,' + t2]
+
+
 def gen_history(rng, env, variant, length, p_stop=0.04, p_fail=0.03, chunked=0.25, h=None, p_bad=0.22,
                 p_reply=0.1, p_reg=0.0):
     """one random history (continuing `h` when given); returns the History"""
@@ -602,7 +627,10 @@ def gen_history(rng, env, variant, length, p_stop=0.04, p_fail=0.03, chunked=0.2
         elif r < 0.2 + p_stop + p_fail or (h.system.failure and rng.random() < 0.3):
             h.set_failure(not h.system.failure)
         else:
-            data = carry + line() + '\r\n'
+            if rng.random() < 0.08:
+                data = carry + ''.join(x + '\r\n' for x in scenario(rng, h))
+            else:
+                data = carry + line() + '\r\n'
             carry = ''
             if rng.random() < 0.1:
                 data += line() + '\r\n'
